@@ -76,7 +76,7 @@ func selectRules(spec string) []validator.Rule {
 	return out
 }
 
-// args: rules ("*" or names), query, user sources...
+// args: rules ("*" or names; a leading "~" = validate once before, report the second validation), query, user sources...
 func implVal(args [][]byte) string {
 	srcs := make([]string, len(args)-2)
 	for i, a := range args[2:] {
@@ -91,10 +91,16 @@ func implVal(args [][]byte) string {
 		return "query-" + dumpErr(perr)
 	}
 	var errs gqlerror.List
-	if string(args[0]) == "*" {
+	rulesArg := string(args[0])
+	if strings.HasPrefix(rulesArg, "~") {
+		// the same document object validated again: the first validation leaves its annotations
+		rulesArg = rulesArg[1:]
+		validator.Validate(s, doc)
+	}
+	if rulesArg == "*" {
 		errs = validator.Validate(s, doc)
 	} else {
-		errs = validator.Validate(s, doc, selectRules(string(args[0]))...)
+		errs = validator.Validate(s, doc, selectRules(rulesArg)...)
 	}
 	return "ok " + DumpErrors(errs)
 }
